@@ -13,6 +13,22 @@ claimed = {
          "Every construction route of EventID/EventType is executed symbolically from /repo's SSA with the input as N symbolic bytes; z3 decides feasibility of every branch and the assertion 'IsSet implies single line / multi-line input leaves it unset and reports an error' on every path. Within the byte bound this covers all inputs, which the tests sample a handful of; nothing is claimed beyond the bound.",
          "Trusted: go/ssa construction (x/tools v0.29.0), the executor's instruction semantics (validated by replaying sample paths and every counterexample natively), z3 4.8.12; encoding/json is over-approximated by a stub (decodes to the chosen string or fails).",
          "DESIGN.md §5 C14"),
+ "C08": (E1, "bounded symbolic execution of the real go/ssa + SMT (z3): one inductive step of Put/Replay from every ring state satisfying the representation invariant",
+         "FiniteReplayer is decided by an inductive step, not by exploring histories: the pre-state is an arbitrary ring (every count/head shape, symbolic IDs and topics) assumed to satisfy the representation invariant; one real Put or Replay with symbolic arguments is executed from /repo's SSA and z3 decides that the invariant is re-established, the abstract list is the last N accepted entries and the Send/Flush log equals the specification's sub-list. Together with the checked base case this covers Put/Replay histories of any length for the capacities in the bound.",
+         "Trusted: go/ssa, executor semantics (sample paths and counterexamples are replayed natively), z3; the representation invariant is stated in harness/sse_c08.go; capacities and ID/topic sizes as listed in the evidence bounds.",
+         "DESIGN.md §5 C08"),
+ "C09": (E1, "bounded symbolic execution of the real go/ssa + SMT (z3): one inductive step of Put/Replay/GC from every ring state with symbolic 64-bit clock, TTL, GC interval and expiries",
+         "ValidReplayer: arbitrary ring state with arbitrary non-decreasing expiries, arbitrary TTL/GCInterval/lastGC and an arbitrary clock value (64-bit symbolic instants); one real Put, Replay or GC is executed symbolically; z3 decides that no unexpired entry is dropped (by collection, grow or shrink), no expired entry is ever sent, the replay is exactly the later unexpired matching entries, and the invariant holds again. Induction covers histories and clock advances of any length within the buffer lengths checked.",
+         "Trusted: as C08; time.Time is modelled as one 64-bit nanosecond count (Add/Sub/After/IsZero), instants < 2^60 so that Sub does not saturate; non-decreasing clock assumed as the property states.",
+         "DESIGN.md §5 C09"),
+ "C18": (E1, "bounded symbolic execution + SMT over ring states, reachability walk on the executor's explicit heap",
+         "Reuses the C08/C09 inductive step. After every Put/GC from an arbitrary ring state the executor walks its explicit heap from the replayer value (slices keep their whole backing array alive, including the part hidden beyond len) and asserts that no evicted or collected message is reachable, that every slot outside the live window - and beyond len - is the zero value, and that at most N entries are held. Which slots get written is index arithmetic over the ring state; the solver decides it for all states in the bound.",
+         "Trusted: as C08/C09; 'unreachable in the executor heap' is taken to imply collectable by Go's GC (the GC itself is outside the claim).",
+         "DESIGN.md §5 C18"),
+ "C19": (E1, "bounded symbolic execution of the real go/ssa + SMT (z3): all histories of K operations on a clone family; Put from every ring state",
+         "Clone independence: from an arbitrary message (explicit spare capacity in its chunk slice) every history of K operations (AppendData/AppendComment with symbolic strings, field assignment, Clone) over a family of up to 3 messages is executed symbolically; after each step the encodings of all members other than the one operated on are unchanged. Put never mutating its argument, every publication being a fresh object with the next ID, and earlier publications never changing are asserted in the C08/C09 Put step from every ring state.",
+         "Trusted: as C08; spare capacities 0-2 stand for the states append growth can leave.",
+         "DESIGN.md §5 C19"),
 }
 pending = "check not built yet (engine work in progress; will be decided with the same SSA->SMT technique or declared not applicable)"
 na_reasons = {}
